@@ -238,6 +238,17 @@ def run(chk):
     ok = any(isinstance(n, ast.For) and is_self_attr(n.iter, "pending") and any(isinstance(c, ast.Call) and last_attr(c.func) == "send" for c in ast.walk(n))
              and not any(isinstance(b, (ast.Break, ast.Return, ast.If, ast.Continue)) for b in ast.walk(n)) for n in walk_body(sap))
     chk.ob("O12.1c", "send_all_pending sends every pending start message", ok, sap, "unconditional loop over self.pending with send")
+    # the wait ends when the map of awaited remotes is EMPTY: a joined remote's entry is deleted whenever it is present, and the map (a defaultdict) is never subscripted in a test
+    # (a mere look-up of an unknown address would create an entry that nothing removes)
+    from sa import pat as _p12
+    dels = [n for n in walk_body(cu) if isinstance(n, ast.Delete) and any(isinstance(t, ast.Subscript) and is_self_attr(t.value, "remotes") for t in n.targets)]
+    ok = bool(dels) and all(all(_p12.is_(f_, "E_k in self.remotes") for f_ in _p12.fact_nodes(d, stop=None) if "remoteAdded" not in u(f_)) for d in dels)
+    chk.ob("O12.1c", "the entry of a joined remote is removed whenever it is present (guarded by membership only)", ok, dels[0] if dels else cu,
+           "" if ok else f"removal guarded by {[u(f_) for d in dels for f_ in _p12.fact_nodes(d)]}", key=f"{_M}:Dispatcher.receiveMsg_ActorSystemConventionUpdate:del-guard")
+    viv = [t for n in walk_body(cu) if isinstance(n, (ast.If, ast.While, ast.IfExp)) for t in ast.walk(n.test) if isinstance(t, ast.Subscript) and is_self_attr(t.value, "remotes")]
+    chk.ob("O12.1c", "no auto-vivifying look-up of the awaited-remotes map inside a condition", not viv, viv[0] if viv else cu,
+           "" if not viv else f"`{u(viv[0])}` in a test creates an empty entry for an address that is not awaited: `not self.remotes` never becomes true and the parked start messages are never sent",
+           key=f"{_M}:Dispatcher.receiveMsg_ActorSystemConventionUpdate:no-vivify")
     # ... exactly once: a later convention notification (another daemon joining) reaches send_all_pending again, so the list must be empty by then
     gsap = cfg_of(sap)
     sloops = [n for n in walk_body(sap) if isinstance(n, ast.For) and is_self_attr(n.iter, "pending")]
